@@ -42,3 +42,4 @@ META = dict(
     design_ref="DESIGN.md §4 C06",
     technique="CBMC bounded symbolic execution of real restore_fstree.c + path helpers with recording syscall stubs over all names, SAT",
 )
+META["text"] += ' The data phase (fill_files.c) is covered by the same predicate on every path given to sqfs_ostream_open_file.'
